@@ -56,6 +56,7 @@ fn main() {
         "C14" => props::c14::run(chk),
         "C15" => props::c15::run(chk),
         "C18" => props::c18::run(chk),
+        "C20" => props::c20::run(chk),
         _ => infra(&format!("no check for {id}")),
     }
 }
